@@ -385,6 +385,79 @@ pub fn run(ctx: &Ctx, replay: Option<&J>) -> i32 {
         let (si, ii, m) = jobs[i];
         check(ctx, &scripts[si], &sets[ii], m);
     });
+    // ---- hand-written scripts whose statements all succeed (function outputs of several provenances,
+    // many outputs): exit 0, exactly one object with exactly these keys in this order, in every mode
+    {
+        let many: String = (0..40).map(|i| format!("output o{} = {}", i, i)).collect::<Vec<_>>().join("\n");
+        let many_keys: Vec<String> = (0..40).map(|i| format!("o{}", i)).collect();
+        let scripts: Vec<(String, Vec<String>)> = vec![
+            ("output f = do {\n  fact = n => if n <= 1 then 1 else n * fact(n - 1)\n  return fact\n}".to_string(), vec!["f".into()]),
+            ("mk = () => do {\n  go = n => if n <= 0 then 0 else go(n - 1)\n  return go\n}\ninst = mk()\nalias = inst\nused = alias(3)\noutput alias\noutput used".to_string(), vec!["alias".into(), "used".into()]),
+            ("output r = {fn: do {\n  loop = n => if n <= 0 then [] else [n, ...loop(n - 1)]\n  return loop\n}, k: 1}".to_string(), vec!["r".into()]),
+            ("k = 2\ng = x => x * k\noutput h = y => g(y) + k\noutput v = h(3)".to_string(), vec!["h".into(), "v".into()]),
+            ("fact = n => if n <= 1 then 1 else n * fact(n - 1)\noutput fact\noutput x = fact(5)".to_string(), vec!["fact".into(), "x".into()]),
+            (many, many_keys),
+        ];
+        let mut jobs: Vec<(usize, &'static str)> = vec![];
+        for i in 0..scripts.len() {
+            for m in ["file", "inline", "stdin-e", "out-file"] {
+                jobs.push((i, m));
+            }
+        }
+        let results: Vec<(crate::proc::CliResult, Option<String>)> = par_map(&jobs, |(i, m)| {
+            let src = &scripts[*i].0;
+            match *m {
+                "file" => {
+                    let f = scratch_file("hand");
+                    let _ = std::fs::write(&f, src);
+                    let r = run_blots(&[f.clone()], None, None);
+                    let _ = std::fs::remove_file(&f);
+                    (r, None)
+                }
+                "inline" => (run_blots(&[src.clone()], None, None), None),
+                "stdin-e" => (run_blots(&["-e".into()], Some(src.as_bytes()), None), None),
+                _ => {
+                    let o = scratch_file("hand-out");
+                    let _ = std::fs::remove_file(&o);
+                    let r = run_blots(&[src.clone(), "-o".into(), o.clone()], None, None);
+                    let w = std::fs::read_to_string(&o).ok();
+                    let _ = std::fs::remove_file(&o);
+                    (r, Some(w.unwrap_or_default()))
+                }
+            }
+        });
+        for ((i, m), (r, file)) in jobs.iter().zip(results.iter()) {
+            ctx.count(1);
+            ctx.nontrivial(&format!("hand-script:{}:{}", i, m));
+            ctx.outcome("hand-script");
+            let text = file.clone().unwrap_or_else(|| r.stdout.clone());
+            let objs = json_object_lines(&text);
+            let keys: Vec<String> = objs.first().and_then(|o| o.as_object()).map(|o| o.keys().cloned().collect()).unwrap_or_default();
+            let mut want = scripts[*i].1.clone();
+            let mut got = keys.clone();
+            // (the harness's JSON maps are sorted; declaration order is checked on the raw text below)
+            want.sort();
+            got.sort();
+            let mut ordered = true;
+            let mut last = 0usize;
+            for k in &scripts[*i].1 {
+                match text.find(&format!("\"{}\":", k)) {
+                    Some(p) if p >= last => last = p,
+                    _ => ordered = false,
+                }
+            }
+            if r.code != Some(0) || objs.len() != 1 || want != got || !ordered {
+                ctx.violation(Violation {
+                    kind: "hand-script".into(),
+                    class: m.to_string(),
+                    input: format!("[{}] {}", m, truncate(&scripts[*i].0.replace('\n', " ; "), 200)),
+                    expected: format!("exit 0 and one object with keys {:?} in this order", scripts[*i].1),
+                    observed: truncate(&r.describe(), 300),
+                    case: json!({"hand_script": i, "mode": m}),
+                });
+            }
+        }
+    }
     // ---- large non-ASCII sources: the script text itself arrives through reads of bounded size
     // (file, inline argument, -e on stdin in one write and in small chunks)
     {
